@@ -11,7 +11,7 @@ returns for a non-false function) or the one-node array of the constant false (`
 
 * specification level: `paths_partition`, `extensions_spec`, `sat_valuations_spec`;
 * the step functions compute the specifications: `val_next_spec`, `clause_vals_iter_eq`,
-  `clause_vals_new_panics`, `path_iter_eq`, `to_dnf_eq_paths`, `to_dnf_eq_sat_clauses`, `sat_iter_eq`;
+  `clause_vals_new_panics`, `clause_vals_shape_irrelevant`, `dnf_clause_vals`, `path_iter_eq`, `to_dnf_eq_paths`, `to_dnf_eq_sat_clauses`, `sat_iter_eq`;
 * owned variants: `owned_returns_bdd`, `owned_same_sequences`; error branches: `clause_vals_new_panics`,
   `path_iter_redundant_panics`; the constant false: `false_constant`.
 -/
@@ -171,7 +171,8 @@ theorem to_dnf_eq_paths {A : Arr} {n : Nat} (h : Red A n) (hn : numVars A = n) (
     ∃ R, toDnf A fuel = .ok R ∧ R.map (pvNorm n) = pathsOf A := by
   have h2 := h.size2
   have hr : root A < A.size := by unfold root; omega
-  obtain ⟨k, path', R, hrun, _, hR, hk⟩ := dnfLoop_sub h (root A) hr [] [] [] (fun i _ => pvGet_nil i)
+  obtain ⟨k, path', R, hrun, _, hR, hk, _⟩ :=
+    dnfLoop_sub h (root A) hr [] [] [] (fun i _ => pvGet_nil i) (fun j _ => pvGet_nil j)
   have hle : 2 ^ root A ≤ 2 ^ A.size := Nat.pow_le_pow_right (by omega) (by omega)
   refine ⟨R, ?_, ?_⟩
   · obtain ⟨f, rfl⟩ : ∃ f, fuel = f + k := ⟨fuel - k, by omega⟩
@@ -186,6 +187,50 @@ theorem to_dnf_eq_sat_clauses {A : Arr} {n : Nat} (h : Red A n) (hn : numVars A 
   obtain ⟨R, hR, hRn⟩ := to_dnf_eq_paths h hn fuel hf
   obtain ⟨hP, hPn, _⟩ := path_iter_eq h hn fuel hf'
   exact ⟨R, _, hR, hP, by rw [hRn, hPn]⟩
+
+/-- The backing vector of a clause is irrelevant: two partial valuations with the same `get_value`
+    everywhere (e.g. one of them grown by `unset_value` of a later variable, or by the shared path buffer
+    of `to_dnf`) give clause iterators that yield the same valuations. -/
+theorem clause_vals_shape_irrelevant (c d : PV) (n : Nat) (he : ∀ i, pvGet c i = pvGet d i)
+    (h : NoTrueBeyond n c) (fuel : Nat) (hf : 2 ^ freeCount (pvNorm n c) < fuel) :
+    ∃ sc sd l, cvNew c n = .ok sc ∧ cvNew d n = .ok sd ∧
+      collect cvNext fuel sc = .ok l ∧ collect cvNext fuel sd = .ok l ∧ l = extensions (pvNorm n c) := by
+  have hd : NoTrueBeyond n d := fun j hj => by rw [← he]; exact h j hj
+  have hn : pvNorm n c = pvNorm n d := pvNorm_congr n c d he
+  obtain ⟨⟨sc, hc1, hc2⟩, _⟩ := clause_vals_iter_eq c n h fuel hf
+  obtain ⟨⟨sd, hd1, hd2⟩, _⟩ := clause_vals_iter_eq d n hd fuel (by rw [← hn]; exact hf)
+  exact ⟨sc, sd, _, hc1, hd1, hc2, by rw [hd2, hn], rfl⟩
+
+/-- Every clause returned by `to_dnf` (as returned: the raw vector, with whatever trailing unset cells the
+    shared path buffer left) and by `sat_clauses` is accepted by `ValuationsOfClauseIterator::new(·, n)` and
+    yields exactly the extensions of its literals over the `n` variables; concatenated over the `to_dnf`
+    clauses these are exactly `satSpec A`. -/
+theorem dnf_clause_vals {A : Arr} {n : Nat} (h : Red A n) (hn : numVars A = n) (fuel : Nat)
+    (hf : 4 * 2 ^ A.size ≤ fuel) :
+    ∃ R, toDnf A fuel = .ok R ∧
+      (∀ c, c ∈ R ∨ c ∈ paths A (root A) [] → NoTrueBeyond n c ∧ ∀ f, 2 ^ freeCount (pvNorm n c) < f →
+        ∃ st, cvNew c n = .ok st ∧ collect cvNext f st = .ok (extensions (pvNorm n c))) ∧
+      R.flatMap (fun c => extensions (pvNorm n c)) = satSpec A := by
+  have h2 := h.size2
+  have hr : root A < A.size := by unfold root; omega
+  obtain ⟨k, path', R, hrun, _, hR, hk, hb⟩ :=
+    dnfLoop_sub h (root A) hr [] [] [] (fun i _ => pvGet_nil i) (fun j _ => pvGet_nil j)
+  have hle : 2 ^ root A ≤ 2 ^ A.size := Nat.pow_le_pow_right (by omega) (by omega)
+  refine ⟨R, ?_, ?_, ?_⟩
+  · obtain ⟨f, rfl⟩ : ∃ f, fuel = f + k := ⟨fuel - k, by omega⟩
+    unfold toDnf
+    rw [hrun f, dnfLoop_nil]; simp
+  · intro c hc
+    have hntb : NoTrueBeyond n c := by
+      intro j hj
+      rcases hc with hc | hc
+      · rw [hb c hc j hj]; simp
+      · rw [paths_beyond h _ hr _ _ hc j hj, pvGet_nil]; simp
+    exact ⟨hntb, fun f hf' => (clause_vals_iter_eq c n hntb f hf').1⟩
+  · have : R.map (pvNorm n) = pathsOf A := by
+      rw [hR, paths_norm h _ hr, pvNorm_nil]; unfold pathsOf; rw [hn]
+    unfold satSpec
+    rw [← this, List.flatMap_map]
 
 /-- `sat_valuations`: unfolding `BddSatisfyingValuations::next` (the chaining of the path iterator and the
     clause iterator) from `Bdd::sat_valuations` yields exactly `satSpec A`, without panic — by
@@ -360,5 +405,13 @@ example : (cvNew [some true, none, some true] 2).isPanic = true := by decide
 example : extensions [some true, none, none] = [[true, false, false], [true, true, false], [true, false, true], [true, true, true]] := by
   decide
 example := val_next_spec [some true, none] 3 [true, true, false] (by decide)
+/-- the `to_dnf` clause `[Some(true), Some(true), None]` of `(!x0 & x2) | (x0 & x1)` and the plain `[Some(true), Some(true)]` -/
+example := clause_vals_shape_irrelevant [some true, some true, none] [some true, some true] 3
+  (by intro i; match i with | 0 => rfl | 1 => rfl | 2 => rfl | i + 3 => simp [pvGet])
+  (by intro j hj; match j, hj with | j + 3, _ => simp [pvGet]) 3 (by decide)
+example : (cvNew [some true, some true, none] 3).toOption.map (·.next) = some (some [true, true, false]) := by decide
+/-- the empty clause after `unset_value(x0)`, `num_vars = 0`: one empty valuation -/
+example : (match cvNew [none] 0 with | .ok st => (collect cvNext 2 st).toOption | _ => none) = some [[]] := by decide
+example := dnf_clause_vals exA_red rfl 128 (by decide)
 
 end B.Props.C08
